@@ -347,6 +347,7 @@ class BusCookieAuthenticator :
 
     def _step_two(self, response):
         self._delete_cookie()
+        self.cookieId = None  # nothing left for cancel() to delete
         hash_str = None
         shash = 1
         try:
